@@ -129,12 +129,19 @@ func (x *Exec) byteEq(a, b Int) *Term {
 	tt := x.tt
 	if a.Atom != 0 || b.Atom != 0 {
 		if a.Atom == b.Atom {
-			if a.Atom == atomFlt {
-				// same text iff same float value class; conservatively: identical term, or bit-equality
-				if a.S == b.S {
-					return tt.tru
+			switch a.Atom {
+			case atomFlt:
+				return tt.FSame(a.S, b.S)
+			case atomQuo:
+				// Quote is injective: equal texts iff equal byte strings
+				if len(a.S.Args) != len(b.S.Args) {
+					return tt.fls
 				}
-				unsupported("comparison of float atoms")
+				r := tt.tru
+				for i := range a.S.Args {
+					r = tt.And(r, tt.Cmp(OpEq, a.S.Args[i], b.S.Args[i]))
+				}
+				return r
 			}
 			return tt.Cmp(OpEq, a.S, b.S)
 		}
@@ -755,6 +762,7 @@ func (x *Exec) builtin(b *ssa.Builtin, args []Value) Value {
 			if f.panicking != nil {
 				gp := f.panicking
 				f.panicking = nil
+				x.lastRecovered = gp
 				if gp.val != nil {
 					return gp.val
 				}
